@@ -16,7 +16,7 @@ import (
 func init() {
 	core.Register(&core.Property{
 		ID:          "C11",
-		Rule:        "NetIDs: quick = every NetID with stride 97 plus all field-boundary values for the 8 types, thorough = all 2^24 NetIDs (exhaustive); each combined with DevAddrs {0, 0xFFFFFFFF, two seeded random values}; SetAddrPrefix / NwkID / NetIDType / IsNetID / NetID.Type / NetID.ID are compared with an integer-arithmetic model of the addressing rules, IsNetID additionally on near-miss addresses (one bit flipped in the prefix, the NwkID field and the NwkAddr field, and the same NwkID value under another type). Representations: EUI64, DevAddr, NetID, AES128Key through text (hex, optional 0x), binary (byte-reversed), database Value/Scan, and every wrong length 0..2n. Distinct = (NetID type, DevAddr class, check kind) and (identifier type, representation, length).",
+		Rule:        "NetIDs: quick = every NetID with stride 97 plus all field-boundary values for the 8 types, thorough = all 2^24 NetIDs (exhaustive); each combined with DevAddrs {0, 0xFFFFFFFF, two seeded random values}; SetAddrPrefix / NwkID / NetIDType / IsNetID / NetID.Type / NetID.ID are compared with an integer-arithmetic model of the addressing rules, IsNetID additionally on near-miss addresses (every single-bit neighbour of the prefixed address, sampled bit flips in the prefix / NwkID / NwkAddr fields of the other addresses, and the same NwkID value under another type). Representations: EUI64, DevAddr, NetID, AES128Key through text (hex, optional 0x), binary (byte-reversed), database Value/Scan, and every wrong length 0..2n. Distinct = (NetID type, DevAddr class, check kind) and (identifier type, representation, length).",
 		Assumptions: []string{"NwkID widths 6/6/9/11/12/13/15/17 and prefix lengths 1..8 as in LoRaWAN Backend Interfaces 1.0 / the property statement"},
 		MinEvals:    1000,
 		Run:         runC11,
@@ -69,6 +69,12 @@ func c11CheckNetID(c *core.Ctx, nid uint32, addrs []uint32) {
 			want ^ 1<<uint(31-p-(ai*7)%nb),   // NwkID bit
 			want ^ 1<<uint((ai*5)%(32-p-nb)), // NwkAddr bit (still a member)
 			a,                                // the unprefixed address
+		}
+		// every single-bit neighbour of the prefixed address (first DevAddr only: 32 candidates)
+		if ai == 0 {
+			for bit := uint(0); bit < 32; bit++ {
+				cands = append(cands, want^1<<bit)
+			}
 		}
 		// same NwkID value under a neighbouring type
 		for _, t2 := range []int{(t + 1) % 8, (t + 7) % 8} {
